@@ -118,6 +118,7 @@ type vc struct {
 	topFC             *funcContract
 	notes             []string // abstraction notes: havocs, unsupported constructs
 	trusted           map[string]bool
+	atifCount         map[string]int    // how many branches with a given condition text were generated so far
 	extOrd            map[string]int    // ordinals of calls to library functions (for atcall clauses on them)
 	callGuard         map[string]string // path condition under which the k-th call to a callee under contract was made
 	curCall           ssa.CallInstruction // the call instruction being modelled (stdlib models that need operand types)
